@@ -1,0 +1,21 @@
+//go:build verif
+
+package goaterr
+
+// Machine-checked contracts for /verif (gowp). Comment-only file: it adds no code.
+
+// ToError: nil exactly for the empty list; a list of non-nil errors gives a non-nil error
+//@ func ToError [C07]
+//@   modifies $none
+//@   ensures len(errs) == 0 ==> result == nil
+//@   ensures len(errs) > 0 && forall(k, 0 <= k && k < len(errs) ==> errs[k] != nil) ==> result != nil
+
+// AppendError keeps the list and appends exactly the non-nil new errors
+//@ func AppendError [C07]
+//@   requires arr(errs) != arr(newerrs) || len(newerrs) == 0
+//@   modifies E:error
+//@   ensures len(result) >= len(errs) && forall(k, old(len(errs)) <= k && k < len(result) ==> result[k] != nil)
+//@   ensures forall(j, 0 <= j && j < len(newerrs) ==> (old(newerrs[j]) != nil ==> len(result) > old(len(errs))))
+//@   loop 1 invariant -1 <= $i && $i < len(newerrs) && len(errs) >= old(len(errs)) && forall(k, old(len(errs)) <= k && k < len(errs) ==> errs[k] != nil)
+//@   loop 1 invariant forall(j, 0 <= j && j <= $i ==> (old(newerrs[j]) != nil ==> len(errs) > old(len(errs))))
+//@   loop 1 invariant (arr(errs) != arr(newerrs) || len(newerrs) == 0) && (arr(newerrs) == 0 || allocated(arr(newerrs))) && forall(j, 0 <= j && j < len(newerrs) ==> newerrs[j] == old(newerrs[j]))
